@@ -48,6 +48,21 @@ CHECKS = {
         "Distinct priorities per actor; ties between two equally near admissible values accept both; preference 0 accepts 0.",
         "DESIGN.md section 3 C04",
     ),
+    "C05": (
+        "Hypothesis PBT over generated programs (expression trees realised as formula strings, composition-API calls and FormulaBuilder tokens) against an exact Fraction evaluator",
+        "A compiler-correctness style check: random expression trees are compiled by the real tokenizer / shunting yard / "
+        "composition API, run as real engines on a virtual-time loop, and compared per timestamp with exact rational evaluation "
+        "under conventional precedence and associativity. Exploration level.",
+        "Lock-step delivery; tolerance 1e-9 relative to the largest intermediate magnitude; ill-conditioned denominators excluded and counted.",
+        "DESIGN.md section 3 C05",
+    ),
+    "C13": (
+        "Hypothesis PBT over the C05 programs x missing-value patterns (None/NaN/+-inf, every operand position, per-stream and global nones_are_zeros, exact zero denominators, overflow) against a three-valued reference evaluator",
+        "Same program generator as C05 with missing inputs, zero denominators and overflowing products; the oracle demands exactly "
+        "one output per input timestamp, None iff the three-valued reference is undefined. Exploration level.",
+        "Lock-step delivery; rational cancellation through nested divisions and intermediate overflow with a representable final value are excluded and counted.",
+        "DESIGN.md section 3 C13",
+    ),
     "C09": (
         "Hypothesis model-based testing: update/query histories against a sliding dict model, invariant after every step (list, numpy and MovingWindow containers)",
         "Operation histories (in/out of order, off-grid timestamps, gaps, jumps beyond capacity, None/NaN, index and unaligned "
